@@ -285,12 +285,13 @@ def handlingError (c : Cfg) (e : MErr) : Handling :=
 inductive Action where
   | install (attrs : List AttrObs)        -- handling NONE: routes created with these attributes
   | discardAttrs (attrs : List AttrObs)   -- handling ATTRIBUTE_DISCARD: routes created with the surviving attributes
-  | withdrawAll                           -- handling TREAT_AS_WITHDRAW: every NLRI of the message becomes a withdrawal
+  | withdrawAll (attrs : List AttrObs)    -- handling TREAT_AS_WITHDRAW: every NLRI of the message becomes a withdrawal
+                                          -- (attrs = msg.PathAttributes as delivered; only MP_(UN)REACH are still used)
   | reset (code sub : Nat)                -- NOTIFICATION code/subcode, session closed
   deriving DecidableEq, Repr
 
 def Action.rank : Action → Nat
-  | .install _ => 0 | .discardAttrs _ => 1 | .withdrawAll => 2 | .reset _ _ => 4
+  | .install _ => 0 | .discardAttrs _ => 1 | .withdrawAll _ => 2 | .reset _ _ => 4
 
 /-- `UpdatePathAggregator4ByteAs`: AS4_AGGREGATOR without a (decoded) AGGREGATOR is fatal -/
 def aggErr (attrs : List AttrObs) : Bool :=
@@ -302,7 +303,7 @@ def finish (h : Handling) (attrs : List AttrObs) : Action :=
   else match h with
     | .none => .install attrs
     | .discard => .discardAttrs attrs
-    | _ => .withdrawAll
+    | _ => .withdrawAll attrs
 
 /-- recvMessageWithError + recvMessageloop for one UPDATE.
     Validation runs when the decode handling is NONE or ATTRIBUTE_DISCARD (fix A); after a
@@ -322,5 +323,45 @@ def sessionAction (c : Cfg) (m : AMsg) : Action :=
       let vh := handlingError c ve
       if vh == .reset then .reset ve.code ve.sub
       else finish (if vh.rank > dh.rank then vh else dh) l
+
+/-! ### internal/pkg/table/table_manager.go ProcessMessage: what the delivered UPDATE turns into -/
+
+/-- number of routes created and of withdrawals executed for one delivered UPDATE -/
+structure Effect where
+  announced : Nat
+  withdrawn : Nat
+  deriving DecidableEq, Repr
+
+/-- `reach = a` / `unreach = a` in the attribute loop of ProcessMessage: the LAST attribute of the
+    type counts; its prefix count (0 when its decoder failed: Value stays empty) -/
+def lastNpfx (attrs : List AttrObs) (t : Nat) : Nat :=
+  (attrs.foldl (fun acc a => if a.typ == t then some a.npfx else acc) none).getD 0
+
+/-- `BGPUpdate.IsEndOfRib` -/
+def isEOR (attrs : List AttrObs) (wd nlri : Nat) : Bool :=
+  wd == 0 && nlri == 0 &&
+    (match attrs with
+     | [] => true
+     | [a] => a.typ == 15 && a.npfx == 0
+     | _ => false)
+
+/-- `table.ProcessMessage`: NLRI and MP_REACH prefixes become routes (withdrawals under
+    treat-as-withdraw); the WITHDRAWN ROUTES field and MP_UNREACH prefixes ALWAYS become withdrawals -/
+def processMessage (taw : Bool) (attrs : List AttrObs) (wd nlri : Nat) : Effect :=
+  if isEOR attrs wd nlri then ⟨0, 0⟩
+  else
+    let reach := lastNpfx attrs 14
+    let unreach := lastNpfx attrs 15
+    if taw then ⟨0, nlri + reach + (wd + unreach)⟩ else ⟨nlri + reach, wd + unreach⟩
+
+/-- peer.handleUpdate → ProcessMessage for the message recvMessageloop delivers (none: session reset,
+    nothing is delivered) -/
+def effect (c : Cfg) (m : AMsg) : Option Effect :=
+  let d := decode m
+  match sessionAction c m with
+  | .install l => some (processMessage false l d.wd d.nlri)
+  | .discardAttrs l => some (processMessage false l d.wd d.nlri)
+  | .withdrawAll l => some (processMessage true l d.wd d.nlri)
+  | .reset _ _ => none
 
 end ErrH
